@@ -169,6 +169,22 @@ def gen_workflow(rng: random.Random, opts=None):
     run_opts = {}
     if fcp - icp >= 2 and rng.random() < opts.get('p_startcp', 0.15):
         run_opts['startcp'] = str(rng.randint(icp + 1, fcp - 1))
+    queues_txt = ''
+    if opts.get('queues'):
+        # C05S (additive, only with option queues; drawn after everything else): internal queues with limits 1-3
+        # and overlapping memberships (a task listed by several queues belongs to the last one), sometimes a
+        # limit on the default queue
+        qlines = []
+        if rng.random() < opts.get('p_default_limit', 0.4):
+            qlines.append(f'        [[[default]]]\n            limit = {rng.choice([1, 2, 3])}\n')
+        pool_names = sorted(mentioned)
+        for qi in range(rng.randint(1, 3)):
+            mem = rng.sample(pool_names, rng.randint(1, len(pool_names)))
+            qlines.append(f'        [[[q{qi}]]]\n            limit = {rng.choice([1, 1, 2, 3])}\n'
+                          f'            members = {", ".join(mem)}\n')
+        queues_txt = '    [[queues]]\n' + ''.join(qlines)
+        # a wider runahead window: several cycles compete for the same queue
+        runahead = max(runahead, rng.choice([1, 2, 3, 4]))
     flow = f'''[scheduler]
     allow implicit tasks = True
 [scheduling]
@@ -176,14 +192,17 @@ def gen_workflow(rng: random.Random, opts=None):
     initial cycle point = {icp}
     final cycle point = {fcp}
     runahead limit = P{runahead}
-{stop_line}{special}    [[graph]]
+{stop_line}{special}{queues_txt}    [[graph]]
 {graph_txt}[runtime]
     [[root]]
         [[[simulation]]]
             default run length = PT0S
 {runtime}'''
     return {'flow': flow, 'prof': prof, 'tasks': sorted(mentioned), 'icp': icp, 'fcp': fcp, 'runahead': runahead,
-            'opts': run_opts}
+            'opts': run_opts,
+            # additive (C27, read only by genreload.py): the abstract spec the text was rendered from
+            'spec': {'names': names, 'recs': recs, 'sections': sections, 'seq_tasks': seq_tasks,
+                     'stop_line': stop_line, 'offs': offs}}
 
 
 def gen_policy(rng, wf, kind='complete', opts=None):
@@ -195,7 +214,7 @@ def gen_policy(rng, wf, kind='complete', opts=None):
         oc = {'custom': [c + c for c in p['custom']], 'p_custom': 1.0, 'p_fail': 0.0,
               'exec_retries': p['exec_retries'], 'sub_retries': p['sub_retries'],
               'p_retry_fail': 0.6}
-        if kind in ('complete', 'cmd', 'cmdtrigc', 'set'):      # ('cmdtrigc': C28, 'set': C29/C08S, additive)
+        if kind in ('complete', 'cmd', 'cmdtrigc', 'set', 'cmdrmc', 'cmdrmr', 'cmdrl', 'qc', 'cmdqc'):   # ('cmdtrigc': C28, 'set': C29/C08S, 'cmdrm*': C30, 'cmdrl': C27, additive)
             if p['opt_fail']:
                 oc['p_fail'] = 0.4
             # optional custom outputs may be skipped; required ones are always produced
@@ -240,6 +259,13 @@ def gen_policy(rng, wf, kind='complete', opts=None):
         if opts.get('restarts') is not None:
             choices = list(opts['restarts'])
             pol['restarts'] = choices[pol['restarts'] % len(choices)]
+    if kind in ('cmdq', 'cmdqc'):
+        # C05S (additive; applied after all draws): holds / releases (often of a task that sits in a queue), hold
+        # point, pause, stop + restart over workflows with limited queues ('cmdqc': complete outcomes)
+        pol['cmds'] = ['hold', 'release', 'hold', 'release', 'hold', 'release', 'set_hold_point', 'release_hold_point',
+                       'stop_point', 'stop_clean', 'stop_now', 'pause', 'resume']
+        pol['p_cmd'] = {0.4: 0.1, 0.6: 0.16, 0.8: 0.22}.get(pol.get('p_msg'), 0.16)
+        pol['p_hold_queued'] = 0.6
     if kind in ('cmdtrig', 'cmdtrigc'):
         # C28 (additive; applied after all draws): group triggers mixed with holds / pause; no restarts;
         # the task_states / task_outputs tables are part of the observation ('cmdtrigc': complete outcomes)
@@ -248,6 +274,20 @@ def gen_policy(rng, wf, kind='complete', opts=None):
         pol['p_cmd'] = 0.1
         pol['restarts'] = 0
         pol['obs_db'] = True
+    if kind in ('cmdrm', 'cmdrmc', 'cmdrmr'):
+        # C30 (additive; applied after all draws): `cylc remove` (with / without --flow) mixed with group triggers
+        # (--flow=new / N: several flows in the pool) and holds / pause; the task_states / task_outputs tables are
+        # part of the observation.  'cmdrm': any outcomes, 'cmdrmc': complete outcomes, both without restarts;
+        # 'cmdrmr': complete outcomes, removals without triggers, with stop + restart
+        pol['cmds'] = ['remove', 'remove', 'remove', 'trigger', 'trigger', 'remove', 'hold', 'release', 'remove',
+                       'set_hold_point', 'release_hold_point', 'pause', 'resume', 'remove', 'trigger', 'remove']
+        pol['p_cmd'] = [0.1, 0.16, 0.22][seed_mod3(pol)]
+        pol['restarts'] = 0
+        pol['obs_db'] = True
+        if kind == 'cmdrmr':
+            pol['cmds'] = ['remove', 'remove', 'remove', 'hold', 'release', 'remove', 'stop_clean', 'stop_now',
+                           'pause', 'resume', 'remove', 'remove']
+            pol['restarts'] = 2
     if kind.startswith('set'):
         # C29 / C08S (additive; new kinds, drawn after everything else): `cylc set` of outputs / prerequisites with
         # --flow / --wait on pooled and future instances, mixed with holds, stop + restart
@@ -256,14 +296,38 @@ def gen_policy(rng, wf, kind='complete', opts=None):
                        'set_hold_point', 'release_hold_point', 'stop_clean', 'stop_now', 'pause', 'resume']
         pol['p_cmd'] = rng.choice([0.1, 0.18, 0.25])
         pol['restarts'] = rng.choice([0, 0, 1, 2])
+    if kind in ('cmdrl', 'cmdrla'):
+        # C27 (additive; applied after all draws): `cylc reload` of unchanged / extended / shrunk / broken definitions
+        # (the variants of the case, see genreload.py) mixed with holds, pause, stop points and stop + restart;
+        # 'cmdrl': complete outcomes, 'cmdrla': failures / noise as in 'any'.  opts['reload_cmds'] / ['p_reload']
+        # override the command mix / rate (e.g. a reload at nearly every main loop in the thorough tier)
+        pol['cmds'] = (opts or {}).get('reload_cmds') or [
+            'reload', 'reload', 'reload', 'reload', 'hold', 'release', 'reload', 'set_hold_point',
+            'release_hold_point', 'reload', 'pause', 'resume', 'reload', 'stop_point', 'stop_clean', 'stop_now']
+        pol['p_cmd'] = (opts or {}).get('p_reload') or {0.4: 0.12, 0.6: 0.2, 0.8: 0.3}.get(pol.get('p_msg'), 0.2)
+        pol['inst_off'] = True          # instance graph also for off-sequence points (see runner.extract_graph)
     return pol
+
+
+def seed_mod3(pol):
+    # C30 (additive, no random draw): a choice among three command rates derived from the drawn message rate
+    return {0.4: 0, 0.6: 1, 0.8: 2}.get(pol.get('p_msg'), 1)
 
 
 def gen_case(seed: int, kind='complete', opts=None):
     rng = random.Random(seed)
+    if kind in ('qc', 'qa', 'cmdq', 'cmdqc'):
+        # C05S (additive): the queue kinds generate workflows with limited internal queues
+        # ('qc' complete outcomes, 'qa' failures / noise, 'cmdq' / 'cmdqc' with holds and stop + restart)
+        opts = dict(opts or {}, queues=True)
     wf = gen_workflow(rng, opts)
-    return {'id': f'{kind}{seed}', 'flow': wf['flow'], 'seed': seed, 'opts': wf['opts'],
+    case = {'id': f'{kind}{seed}', 'flow': wf['flow'], 'seed': seed, 'opts': wf['opts'],
             'policy': gen_policy(rng, wf, kind, opts), 'ops': None, 'kind': kind}
+    if kind in ('cmdrl', 'cmdrla'):
+        # C27 (additive, drawn after everything else): the definitions the run is reloaded with
+        import genreload
+        case['variants'] = genreload.gen_variants(rng, wf, opts)
+    return case
 
 
 if __name__ == '__main__':
